@@ -20,6 +20,8 @@ def edges_from_facts(facts, env=None):
             if t:
                 add(a, b)          # a < b  =>  a <= b
                 add(a + '+1', b)
+                if _NUM.match(b):
+                    add(a, str(int(b) - 1))
             else:
                 add(b, a)          # !(a < b)  =>  b <= a
         elif atom.startswith('EQ(') and t:
@@ -28,12 +30,30 @@ def edges_from_facts(facts, env=None):
                 a, b = pc[1]
                 add(a, b)
                 add(b, a)
+        elif not t and atom.startswith('EQ(') and atom.endswith((',CK_INVALID_HANDLE)', ',0)', ',NULL_PTR)')):
+            pc = parse_call(atom)
+            if pc and len(pc[1]) == 2:
+                add('1', pc[1][0])      # x != 0 (unsigned)  =>  1 <= x
         elif not t and not atom.startswith(('EQ(', 'LT(')):
             # "x" false  =>  x == 0
             add(atom, '0')
+        elif t and not atom.startswith(('EQ(', 'LT(')):
+            # "x" true (an unsigned quantity that is not zero)  =>  1 <= x
+            add('1', atom)
     for k, v in (env or {}).items():
         add(k, v)
         add(v, k)
+    # x % c == 0 and x != 0  =>  c <= x
+    for atom, t in facts:
+        m = None
+        if not t and atom.startswith('(') and atom.endswith(')'):
+            m = split_binop(atom, '%')
+        elif t and atom.startswith('EQ(') and atom.endswith(',0)'):
+            m = split_binop(atom[3:-3], '%')
+        if m:
+            x, c = strip_parens(m[0]), strip_parens(m[2])
+            if (x, True) in facts or ('EQ(%s,0)' % x, False) in facts:
+                add(c, x)
     return le
 
 
@@ -91,6 +111,8 @@ def entails_le(n, cap, facts, env=None, depth=0):
         if _NUM.match(a) and _NUM.match(cap) and int(a) <= int(cap):
             return True
         succ = set(norm.get(a, ()))
+        if _NUM.match(a):
+            succ.update(k for k in norm if _NUM.match(k) and int(a) <= int(k))
         # lemmas: x % c <= c ; min(a,b) <= a,b ; x/2 <= x ; a - b <= a (unsigned, b <= a checked elsewhere)
         sb = split_binop(a, '%')
         if sb:
